@@ -245,21 +245,6 @@ theorem soc_rejected_non_numeric (v : Vehicle α) (hv : ∀ r, v ≠ .ice r) :
   | bev r b => rfl
   | phev s d b => rfl
 
-theorem withStartSoc_ok {b b' : Battery α} {x : α} (h : b.withStartSoc x = .ok b') :
-    (0 ≤ x ∧ x ≤ 100) ∧ b' = { b with startEnergy := Lit.lit 1 100 * x * b.capacity } := by
-  simp only [Battery.withStartSoc, zero_eq, hundred_eq] at h
-  split at h
-  · rename_i hx; cases h; exact ⟨hx, rfl⟩
-  · cases h
-
-theorem asSoc_of_start (cap x : α) (hcap : cap ≠ 0) (hx : 0 ≤ x ∧ x ≤ 100) :
-    asSocPercent (Lit.lit 1 100 * x * cap) cap = x := by
-  simp only [asSocPercent, hundred_eq, zero_eq, LawfulLit.lit_eq]
-  have e : ((1 : ℕ) : α) / ((100 : ℕ) : α) * x * cap / cap * 100 = x := by
-    push_cast; field_simp
-  rw [e]
-  exact clamp_of_mem hx.1 hx.2
-
 /-- C08 `soc_start`: the charge of the initial state is the query's starting value (capacity ≠ 0) -/
 theorem soc_start (v v' : Vehicle α) (x : α) (hv : ∀ r, v ≠ .ice r)
     (hcap : ∀ r b, v = .bev r b → b.capacity ≠ 0) (hcap' : ∀ s d b, v = .phev s d b → b.capacity ≠ 0)
@@ -469,24 +454,6 @@ def CacheSound (r : PredRecord α) (su : SpeedUnit) (gu : GradeUnit) (c : Cache 
 /-- the key determines the prediction — true of a key that keeps its inputs exactly -/
 def KeyDetermines (r : PredRecord α) (su : SpeedUnit) (gu : GradeUnit) (keyOf : α → α → K) : Prop :=
   ∀ s g s' g', keyOf s g = keyOf s' g' → r.rateOf s su g gu = r.rateOf s' su g' gu
-
-theorem find_mem {k : K} {v : α} : ∀ {es : List (K × α)}, Cache.find k es = some v → (k, v) ∈ es
-  | [], h => by simp [Cache.find] at h
-  | (k', v') :: r, h => by
-    simp only [Cache.find] at h
-    split at h
-    · rename_i hk; cases h; subst hk; exact List.mem_cons_self
-    · exact List.mem_cons_of_mem _ (find_mem h)
-
-theorem mem_remove {k : K} {x : K × α} : ∀ {es : List (K × α)}, x ∈ Cache.remove k es → x ∈ es
-  | [], h => by simp [Cache.remove] at h
-  | (k', v') :: r, h => by
-    simp only [Cache.remove] at h
-    split at h
-    · exact List.mem_cons_of_mem _ h
-    · rcases List.mem_cons.mp h with h | h
-      · rw [h]; exact List.mem_cons_self
-      · exact List.mem_cons_of_mem _ (mem_remove h)
 
 theorem cacheSound_empty (r : PredRecord α) (su : SpeedUnit) (gu : GradeUnit) (n : Nat) (keyOf : α → α → K) :
     CacheSound r su gu { capacity := n, keyOf := keyOf, entries := [] } := by
@@ -950,9 +917,7 @@ example : ((socAfter (exPhev (1 / 10)) 50 exRoute).map fun s => decide (s.soc = 
 example : ((socAfter (exBev 60) 50 []).map fun s => decide (s.soc = 50)) = some true := by decide +kernel
 example : socAfter (exBev 60) 101 [] = none ∧ socAfter (exPhev 12) (-1 / 1000) [] = none := by
   constructor <;> decide +kernel
--- the reconstructed speed differs from the table speed for some unit configuration (recK ≠ 1) …
-example : recK .milesPerHour .miles .hours .hours .milesPerHour ≠ 1 := by decide +kernel
--- … an exact key makes a sound cache, and the best case is positive
+-- the best case is the ideal rate × distance
 example : (exBev 60).bestCaseEnergy 10 .miles = (2, .kilowattHours) := by decide +kernel
 
 end C08
